@@ -208,6 +208,7 @@ type Ledger struct {
 	NoR2    bool  // the r2 route has been removed (seed S4's keeper-level step)
 	Fees    int64 // fees the ledger expects to have gone to the community pool
 	Diverge int   // number of reported divergences after which the ledger was re-synchronised
+	Steps   int   // ops applied since the seed state (only used to keep the shortest instance of a classed divergence)
 }
 
 func (l *Ledger) Clone() *Ledger {
@@ -259,13 +260,13 @@ type World struct {
 	Base  sdk.Context // after setup: pools created, epoch counting started
 	R     *core.Result
 	Debug bool // replay mode: extra diagnostics on stdout
+	best  map[string]int
 
 	IncAddr, LockAddr, DistrAddr sdk.AccAddress
 	// Min[i]: the smallest amount of Denoms[i] that is worth the configured minimum, as the module's
 	// documented valuation defines it (what MinValueForDistribution buys in the route pool at zero
 	// spread; 0 when it buys less than one unit, i.e. every positive amount is worth more).
-	Min      [3]int64
-	R2PoolID uint64
+	Min [3]int64
 }
 
 var stores = []string{"incentives", "lockup", "bank", "acc", "epochs", "distribution", "protorev", "gamm", "poolincentives", "poolmanager"}
@@ -322,7 +323,6 @@ func NewWorld(cfg Config, r *core.Result) *World {
 	}
 	p1 := mkPool(sdk.NewCoin(Uosmo, sdkmath.NewInt(cfg.PoolUosmo)), sdk.NewCoin(R1, sdkmath.NewInt(cfg.PoolR1)))
 	p2 := mkPool(sdk.NewCoin(Uosmo, sdkmath.NewInt(cfg.R2Pool)), sdk.NewCoin(R2, sdkmath.NewInt(cfg.R2Pool)))
-	w.R2PoolID = p2
 	// The module values a reward denom through the pool protorev has registered for (uosmo, denom).
 	// protorev registers pools of its base denoms when they are created; make the registration explicit
 	// (same setter) so the scenario does not depend on protorev's genesis.
@@ -443,6 +443,7 @@ func (w *World) RemoveR2Route(ctx sdk.Context, l *Ledger) {
 // Apply executes one symbol on the real application and updates the ledger.
 func (w *World) Apply(ctx sdk.Context, l *Ledger, op Op, fail func(a, s, d string)) (sdk.Context, string) {
 	a := w.App
+	l.Steps++
 	switch op.K {
 	case "gauge":
 		owner := core.Acc(op.A)
